@@ -114,7 +114,9 @@ class GridMachine(BaseCheck):
                 idspec = k.choice([{'s': 'r%d' % j}, {'i': j}, {'i': j // 2}, {'ref': 'r%d' % j},
                                    {'ref': 'r%d' % (j // 2)}, {'refv': 'r%d' % j}, {'s': '%d' % j}, None,
                                    {'f': j + 0.5}, {'f': float(j // 2)}, {'s': ''},
-                                   {'uri': 'http://x/%d' % j}, {'bin': 'text/r%d' % j}, {'uri': 'r%d' % j}])
+                                   {'uri': 'http://x/%d' % j}, {'bin': 'text/r%d' % j}, {'uri': 'r%d' % j},
+                                   {'s': u'cafe\u0301%d' % (j // 2)}, {'s': u'caf\u00e9%d' % (j // 2)},      # same glyphs, different strings
+                                   {'s': u'\u2126%d' % (j // 2)}, {'s': u'\u03a9%d' % (j // 2)}])
             rows.append({'id': idspec, 'n': j if k.random() < 0.8 else 0, 'mk': k.random() < 0.5})
             if k.random() < 0.15:
                 rows[-1]['sub'] = True           # an OrderedDict row
